@@ -108,7 +108,24 @@ func runC11(c *Ctx) {
 		}
 	}
 
-	pcu := c.mustMethod("C11.R2", "wire", "Server", "potentialConnUpgrade")
+	// the function that answers 'S' (potentialConnUpgrade, or a helper extracted from it)
+	var pcu *ssa.Function
+	for _, fn := range c.P.ScopeFuncs() {
+		if !c.P.InPkg(fn, "wire") {
+			continue
+		}
+		for _, ci := range core.Calls(fn) {
+			cc := ci.Common()
+			if cc.IsInvoke() && cc.Method.Name() == "Write" && len(cc.Args) == 1 {
+				if u, ok := core.Strip(cc.Args[0]).(*ssa.UnOp); ok && u.X == ssa.Value(gs) {
+					pcu = fn
+				}
+			}
+		}
+	}
+	if pcu == nil {
+		R.Fail("C11.R2", "anchor:S-reply", "-", "some function of package wire answers an SSLRequest with 'S'", "no Write(sslSupported) found")
+	}
 	sun := c.mustMethod("C11.R3", "wire", "Server", "sslUnsupported")
 	serve := c.mustMethod("C11.R2", "wire", "Server", "serve")
 	hs := c.mustMethod("C11.R2", "wire", "Server", "Handshake")
@@ -119,7 +136,7 @@ func runC11(c *Ctx) {
 	R.Analysed(fname(sun))
 	R.Analysed(fname(serve))
 	R.Analysed(fname(hs))
-	var connP, readerP *ssa.Parameter
+	var connP, readerP, connP2, readerP2 *ssa.Parameter
 	for _, p := range pcu.Params {
 		if core.IsNamed(p.Type(), "net", "Conn") {
 			connP = p
@@ -167,13 +184,55 @@ func runC11(c *Ctx) {
 			}
 		}
 	}
-	R.Check(anyDominates(cfgNonNil, sWrite.Block()) && anyDominates(certsNonEmpty, sWrite.Block()), "C11.R1", "potentialConnUpgrade:S-only-with-certificates", c.at(sWrite), "'S' is sent only when a TLS configuration with at least one certificate exists", "dominated by TLSConfig != nil and len(Certificates) != 0", "the 'S' reply is not dominated by both the TLSConfig != nil and the certificates-present edges")
+	guardAt := sWrite.Block()
+	guardFn := pcu
+	if len(cfgNonNil) == 0 && len(certsNonEmpty) == 0 {
+		// the certificate test lives in the caller: it must dominate the call of this function
+		for _, site := range c.P.CallSitesOf(pcu) {
+			guardFn = site.Parent()
+			guardAt = site.Block()
+		}
+		for _, b := range guardFn.Blocks {
+			for _, in := range b.Instrs {
+				cmp, ok := in.(*ssa.BinOp)
+				if !ok {
+					continue
+				}
+				if v, _, ok := core.NilTest(cmp); ok {
+					if fr, ok := core.FieldOfValue(v); ok && fr.Is(pkWire, "Server", "TLSConfig") {
+						cfgNonNil = append(cfgNonNil, nilEdges(v, false)...)
+					}
+				}
+				if x, ok := core.IsLenOf(cmp.X); ok {
+					if _, p := pathOf(x); p == ".TLSConfig.Certificates" {
+						if k, ok := core.ConstInt(cmp.Y); ok && k == 0 {
+							certsNonEmpty = append(certsNonEmpty, constEqEdges(cmp.X, 0, false)...)
+							certsNonEmpty = append(certsNonEmpty, gtEdges(guardFn, func(v ssa.Value) bool { return v == cmp.X }, func(v ssa.Value) bool { k, ok := core.ConstInt(v); return ok && k == 0 })...)
+						}
+					}
+				}
+			}
+		}
+	}
+	R.Check(anyDominates(cfgNonNil, guardAt) && anyDominates(certsNonEmpty, guardAt), "C11.R1", "potentialConnUpgrade:S-only-with-certificates", c.at(sWrite), "'S' is sent only when a TLS configuration with at least one certificate exists", "dominated by TLSConfig != nil and len(Certificates) != 0", "the 'S' reply is not dominated by both the TLSConfig != nil and the certificates-present edges")
 	// the only other exit after an SSLRequest is the 'N' path
-	nCalls := callsIn(pcu, calleeIs(sun))
-	R.Check(len(nCalls) == 1, "C11.R1", "potentialConnUpgrade:N-path", c.atFn(pcu), "without certificates the request is answered by the 'N' path", "one call of sslUnsupported", sprintf("%d calls of sslUnsupported", len(nCalls)))
+	nCalls := callsIn(guardFn, calleeIs(sun))
+	if guardFn != pcu {
+		for _, p := range guardFn.Params {
+			if core.IsNamed(p.Type(), "net", "Conn") {
+				connP2 = p
+			}
+			if core.IsNamed(p.Type(), pkBuffer, "Reader") {
+				readerP2 = p
+			}
+		}
+	} else {
+		connP2, readerP2 = connP, readerP
+	}
+	R.Check(len(nCalls) == 1, "C11.R1", "potentialConnUpgrade:N-path", c.atFn(guardFn), "without certificates the request is answered by the 'N' path", "one call of sslUnsupported", sprintf("%d calls of sslUnsupported", len(nCalls)))
 	for _, ci := range nCalls {
 		a := ci.Common().Args
-		R.Check(a[1] == ssa.Value(connP) && a[2] == ssa.Value(readerP), "C11.R3", "potentialConnUpgrade:N-same-conn-and-reader", c.at(ci), "the 'N' path continues on the same connection with the same reader", "sslUnsupported(conn, reader) with the function's own parameters", "the 'N' path does not receive the original connection and reader")
+		R.Check(a[1] == ssa.Value(connP2) && a[2] == ssa.Value(readerP2), "C11.R3", "potentialConnUpgrade:N-same-conn-and-reader", c.at(ci), "the 'N' path continues on the same connection with the same reader", "sslUnsupported(conn, reader) with the function's own parameters", "the 'N' path does not receive the original connection and reader")
 	}
 
 	// ---------- R2: after 'S'
@@ -224,9 +283,45 @@ func runC11(c *Ctx) {
 			R.Check(okConn && okReader, "C11.R2", "potentialConnUpgrade:returns-tls-conn-and-new-reader", c.at(r), "the upgraded branch hands out the TLS connection and a reader newly built on it", "return (tls conn, NewReader(tls conn), ..)", sprintf("the upgraded branch returns tlsConn=%v, newReaderOnTLS=%v: later traffic would bypass TLS or read stale plaintext", okConn, okReader))
 		}
 	}
-	// Handshake forwards potentialConnUpgrade's results
+	// the caller chain up to Handshake forwards the selected connection and reader
+	chain := []*ssa.Function{pcu}
+	for cur := pcu; cur != hs; {
+		sites := c.P.CallSitesOf(cur)
+		if len(sites) != 1 {
+			break
+		}
+		cur = sites[0].Parent()
+		chain = append(chain, cur)
+	}
+	for i := 1; i < len(chain); i++ {
+		up, down := chain[i], chain[i-1]
+		if up == hs {
+			break
+		}
+		for _, r := range returns(up) {
+			for _, ci := range callsIn(up, calleeIs(down)) {
+				call := ci.(*ssa.Call)
+				if !core.InstrDominates(call, r) {
+					continue
+				}
+				okFwd := true
+				for j := 0; j < 2 && j < len(r.Results); j++ {
+					ex, ok := r.Results[j].(*ssa.Extract)
+					if !ok || ex.Tuple != ssa.Value(call) {
+						okFwd = false
+					}
+				}
+				R.Check(okFwd, "C11.R2", fkey(up)+":forwards-upgrade-results", c.at(r), fkey(up)+" returns the connection and reader selected by the upgrade step", "results are "+fkey(down)+"'s results", fkey(up)+" returns a connection / reader other than the upgrade step's")
+			}
+		}
+	}
+	top := chain[len(chain)-1]
+	if len(chain) >= 2 && top == hs {
+		pcu2 := chain[len(chain)-2]
+		_ = pcu2
+	}
 	for _, r := range returns(hs) {
-		for _, ci := range callsIn(hs, calleeIs(pcu)) {
+		for _, ci := range callsIn(hs, calleeIs(chain[maxInt(0, len(chain)-2)])) {
 			call := ci.(*ssa.Call)
 			if !core.InstrDominates(call, r) {
 				continue
@@ -341,7 +436,7 @@ func runC11(c *Ctx) {
 	for _, site := range c.P.CallSitesOf(nrf) {
 		if c.P.InPkg(site.Parent(), "wire") {
 			where = append(where, fkey(site.Parent()))
-			okSite := fkey(site.Parent()) == "(*Server).Handshake" || (fkey(site.Parent()) == "(*Server).potentialConnUpgrade" && tlsCall != nil && core.InstrDominates(tlsCall, site))
+			okSite := fkey(site.Parent()) == "(*Server).Handshake" || (site.Parent() == pcu && tlsCall != nil && core.InstrDominates(tlsCall, site))
 			R.Check(okSite, "C11.R3", "NewReader-site:"+fkey(site.Parent()), c.at(site), "a connection's reader is constructed only at the start of the handshake and on the freshly upgraded TLS connection", "designated construction site", "buffer.NewReader is constructed in "+fname(site.Parent())+": bytes buffered by the previous reader are dropped (segmentation-dependent behaviour) or plaintext survives the upgrade")
 		}
 	}
@@ -381,4 +476,11 @@ func instrDescr(in ssa.Instruction) string {
 		return x.Name()
 	}
 	return "instruction"
+}
+
+func maxInt(a, b int) int {
+	if a > b {
+		return a
+	}
+	return b
 }
